@@ -40,6 +40,30 @@ theorem c09_inv_after_persist (w : Writer) (m : PersistMode) (hinv : w.Inv) (h :
   | syncData => exact (persist_sync_ok w .syncData (by simp) hinv h).1
   | syncAll => exact (persist_sync_ok w .syncAll (by simp) hinv h).1
 
+/-- **A sealed journal is durable as a whole**: when a journal rotation succeeds, the file that was
+    sealed holds every byte handed to the writer before the rotation and all of it is covered by
+    the `fsync` — whatever was or was not synced before; the new journal starts empty with an empty
+    user-space buffer.  (Later persists only sync the new file.) -/
+theorem c09_rotate_seals_durably (db : JDb) (hinv : db.w.Inv) (h : (jstep db .rotate).2 = .ok) :
+    ∃ content, (jstep db .rotate).1.sealed = db.sealed ++ [(content, content.length)] ∧
+      content = (db.w.persist .syncAll).1.os ∧
+      (jstep db .rotate).1.w.os = [] ∧ (jstep db .rotate).1.w.buf = [] := by
+  by_cases hp : db.poisoned = true
+  · simp [jstep, hp] at h
+  · have hp' : db.poisoned = false := by simpa using hp
+    cases hq : db.w.persist .syncAll with
+    | mk w' r' =>
+      cases r' with
+      | err => simp [jstep, hp', hq] at h
+      | ok =>
+        have hok := persist_sync_ok db.w .syncAll (by simp) hinv (by rw [hq])
+        rw [hq] at hok
+        simp only at hok
+        refine ⟨w'.os, ?_, rfl, ?_, ?_⟩
+        · simp [jstep, hp', hq, hok.2.1]
+        · simp [jstep, hp', hq]
+        · simp [jstep, hp', hq, hok.1]
+
 /-! What is durable is readable: the power-loss image `durable prefix ++ zero padding` of a journal
     made of complete batches `bs` followed by a partially synced batch reads back as `bs` — that is
     `c03_torn_tail`. -/
